@@ -247,6 +247,8 @@ def variable_free_inputs(model: Model):
         out.append((b, "fold"))
         out.append((("Multiply", [("Constant", 0), b]), "fold-under-zero"))
         out.append((("Multiply", [x, b]), "fold-beside-variable"))
+        out.append((("Multiply", [x, ("Constant", 2), b]), "fold-beside-variable-and-constant"))
+        out.append((("Add", [("Constant", 2), x, b, ("Constant", 3)]), "fold-beside-variable-and-constants"))
         out.append((("Add", [x, ("Negation", b)]), "fold-in-sum"))
         out.append((("Power", ("Constant", 1), b), "fold-exponent-of-one"))
         out.append((("Power", b, ("Constant", 0)), "fold-to-the-zero"))
